@@ -32,7 +32,7 @@ void vt_force_pair (V& v, const V& cv, VM& m, const VM& cm, A a)
 #endif
 
 // member templates and overloads that explicit instantiation does not reach
-void vt_force (V& v, const V& cv, const E& e, E&& re, vt::input_it ii, vt::fwd_it fi, const E *p, vt::gen g, A a)
+void vt_force (V& v, const V& cv, const E& e, E&& re, vt::input_it ii, vt::fwd_it fi, const E *p, vt::gen g, A a, vt::pred pr)
 {
   v.emplace_back (e);
   v.emplace_back (static_cast<E&&> (re));
@@ -62,6 +62,7 @@ void vt_force (V& v, const V& cv, const E& e, E&& re, vt::input_it ii, vt::fwd_i
   (void) (cv >= cv);
   swap (v, v);
   (void) erase (v, e);
+  (void) erase_if (v, pr);
   (void) size (cv);
   (void) ssize (cv);
   (void) empty (cv);
